@@ -1444,13 +1444,42 @@ Definition cc_cm2 (cs : list gtree) (items : titems) (cm1 : list (str * value)) 
   | _ => vfail
   end.
 
+(* the branch taken when the current __comments__ entry is a dict or absent *)
+Definition cc_dict (cs : list gtree) (m : meta) (c : dcls) (items : titems) : res gtree :=
+  let cm0 := cc_cm0 c items in
+  let cm1 := if has_comments m then od_set s_type (get_comments m) cm0 else cm0 in
+  do cm2 <- cc_cm2 cs items cm1;
+  Ok (GVal (TDict c (cc_setk c s_comments (TVal (VDict DPlain cm2)) items))).
+
+Definition cc_existing (c : dcls) (items : titems) : option tv :=
+  match c with DPlain => assoc s_comments items | _ => ci_get s_comments items end.
+
+Definition cc_dictlike (e : option tv) : bool :=
+  match e with
+  | Some (TVal (VDict _ _)) | None => true
+  | Some _ => false
+  end.
+
+(* the branch taken when a key-value entry spelled __comments__ holds a non-dict *)
+Definition cc_nondict (cs : list gtree) (m : meta) (items : titems) (r : tv) : res gtree :=
+  if has_comments m then vfail
+  else
+    match assoc s_type items with
+    | Some (TVal (VStr ty)) =>
+        if str_eqb ty s_metadata then
+          match cs with
+          | GNode _ (_ :: _ :: _ :: _) _ :: _ => vfail
+          | GNode _ _ _ :: _ => Ok (GVal r)
+          | _ => vfail
+          end
+        else Ok (GVal r)
+    | _ => vfail
+    end.
+
 Definition cc_composite (cs : list gtree) (m : meta) (r : tv) : res gtree :=
   match r with
   | TDict c items =>
-      let cm0 := cc_cm0 c items in
-      let cm1 := if has_comments m then od_set s_type (get_comments m) cm0 else cm0 in
-      do cm2 <- cc_cm2 cs items cm1;
-      Ok (GVal (TDict c (cc_setk c s_comments (TVal (VDict DPlain cm2)) items)))
+      if cc_dictlike (cc_existing c items) then cc_dict cs m c items else cc_nondict cs m items r
   | _ => vfail
   end.
 
@@ -1465,7 +1494,15 @@ Lemma comments_callback_stages ip g :
   | _ => Ok g
   end.
 Proof.
-  destruct g as [t|d cs m|v]; reflexivity.
+  destruct g as [t|d cs m|v]; try reflexivity. unfold comments_callback.
+  destruct (d =? CB_attr); [reflexivity|]. destruct (d =? CB_projection); [reflexivity|].
+  destruct (d =? CB_composite); [|reflexivity].
+  destruct (tr_main ip true (GNode d cs m)) as [r|e]; [|reflexivity]. cbn [bind].
+  destruct r as [| | |c items]; try reflexivity. cbn [cc_composite]. unfold cc_existing, cc_dict, cc_cm0.
+  destruct c.
+  - destruct (assoc s_comments items) as [[[]| | |]|]; reflexivity.
+  - destruct (ci_get s_comments items) as [[[]| | |]|]; reflexivity.
+  - destruct (ci_get s_comments items) as [[[]| | |]|]; reflexivity.
 Qed.
 
 Lemma cc_attr_G m r r' h h' : E r r' -> cc_attr m r = Ok h -> cc_attr m r' = Ok h' -> Grel h h'.
@@ -1510,16 +1547,50 @@ Proof.
   eapply add_metadata_comments_G; eassumption.
 Qed.
 
-Lemma cc_composite_G cs cs' m r r' h h' :
-  Grel_list cs cs' -> E r r' -> cc_composite cs m r = Ok h -> cc_composite cs' m r' = Ok h' -> Grel h h'.
+Lemma cc_dict_G cs cs' m c items items' h h' :
+  Grel_list cs cs' -> SI items = SI items' ->
+  cc_dict cs m c items = Ok h -> cc_dict cs' m c items' = Ok h' -> Grel h h'.
 Proof.
-  intros HL He H1 H2. destruct r as [| | |c items]; try discriminate. einv.
-  cbn [cc_composite] in H1, H2. cbv zeta in H1, H2. rewrite (cc_cm0_E c items items' HS) in H2.
+  intros HL HS H1 H2.
+  unfold cc_dict in H1, H2. cbv zeta in H1, H2. rewrite (cc_cm0_E c items items' HS) in H2.
   destruct (cc_cm2 cs items _) as [cm2|e] eqn:C1; cbn [bind] in H1; [|discriminate].
   destruct (cc_cm2 cs' items' _) as [cm2'|e] eqn:C2; cbn [bind] in H2; [|discriminate].
   assert (cm2 = cm2') by (eapply cc_cm2_G; eassumption). subst cm2'.
   injection H1 as <-. injection H2 as <-. cbn [Grel]. apply E_dict.
   destruct c; cbn [cc_setk]; unfold ci_set; apply SI_od_set_E; try assumption; reflexivity.
+Qed.
+
+(* which branch is taken does not depend on the positions *)
+Lemma cc_existing_E c items items' :
+  SI items = SI items' -> optE (cc_existing c items) (cc_existing c items').
+Proof.
+  intros H. unfold cc_existing, ci_get. rewrite lower_comments.
+  destruct c; apply SI_assoc_E; (reflexivity || exact H).
+Qed.
+
+Lemma cc_dictlike_E e e' : optE e e' -> cc_dictlike e' = cc_dictlike e.
+Proof.
+  intros H. destruct e as [x|], e' as [x'|]; cbn [optE] in H; try contradiction; [|reflexivity].
+  destruct x; einv; reflexivity.
+Qed.
+
+Lemma cc_nondict_inv cs m items r h : cc_nondict cs m items r = Ok h -> h = GVal r.
+Proof.
+  unfold cc_nondict. intros H. destruct (has_comments m); [discriminate|].
+  destruct (assoc s_type items) as [[[| | | |ty| |]| | |]|]; try discriminate.
+  destruct (str_eqb ty s_metadata); [|injection H as <-; reflexivity].
+  destruct cs as [|[t|d [|a [|b [|c r0]]] m0|v] cs]; try discriminate; injection H as <-; reflexivity.
+Qed.
+
+Lemma cc_composite_G cs cs' m r r' h h' :
+  Grel_list cs cs' -> E r r' -> cc_composite cs m r = Ok h -> cc_composite cs' m r' = Ok h' -> Grel h h'.
+Proof.
+  intros HL He H1 H2. destruct r as [| | |c items]; try discriminate. einv.
+  cbn [cc_composite] in H1, H2.
+  rewrite (cc_dictlike_E _ _ (cc_existing_E c items items' HS)) in H2.
+  destruct (cc_dictlike (cc_existing c items)).
+  - eapply cc_dict_G; eassumption.
+  - apply cc_nondict_inv in H1, H2. subst h h'. cbn [Grel]. apply E_dict. exact HS.
 Qed.
 
 Lemma comments_callback_G ip ip' g g' h h' :
